@@ -7,7 +7,8 @@ import Poupool.Model.Sensor
 * `value_in_range`: the value is a fraction in [0, 100] whatever the ADC delivers.
 * `reading_time`: a reading of ten attempts takes between 0.5 s and 5 s, 5 s exactly when all fail (R = 5 s of `C04.latency_bound`).
 * `low_readings_read_low`: if every successful reading is below the raw count that corresponds to p percent, the value is
-  below p (failed attempts in between never push the level up); symmetric `high_readings_read_high`.
+  below p (failed attempts in between never push the level up); symmetric `high_readings_read_high` (never pull it down);
+  `steady_reading`: with a steady raw count the mean does not depend on which attempts fail.
 -/
 namespace Poupool.SensorProps
 open Poupool.Sensor
@@ -138,5 +139,64 @@ theorem low_readings_read_low (c : Cfg) (hv : Valid c) (reads : List (Option Int
 /-- with the shipped calibration: every successful reading below 241 counts (10 % of the span) reads below the too-low
     threshold of 10 %, however many attempts fail in between -/
 example : below (value ⟨83, 1665⟩ [some 200, none, some 240, none, none, some 100, some 0, none, some 239, some 240]) 10 := by decide
+
+/-- raw count x corresponds to at least p percent: p·(high − low) ≤ (x − low)·100.  If at least one attempt succeeds and every
+    successful reading is at least x, the value is NOT below p percent (for p ≤ 100): failed attempts in between never pull the
+    level down, so a full tank with a flaky ADC is not taken for a low one (no false refill, no false emergency stop). -/
+theorem high_readings_read_high (c : Cfg) (hv : Valid c) (reads : List (Option Int)) (x p : Int) (hp : p ≤ 100)
+    (hx : p * (c.high - c.low) ≤ (x - c.low) * 100) (hall : ∀ r ∈ good reads, x ≤ r) (hne : good reads ≠ []) :
+    ¬ below (value c reads) p := by
+  have hn := good_length_pos hne
+  have hs := total_ge _ x hall
+  obtain ⟨_, h1⟩ := hv
+  have hd : 0 < ((good reads).length : Int) * (c.high - c.low) := Int.mul_pos hn (by omega)
+  have key : p * ((good reads).length * (c.high - c.low)) ≤ (total (good reads) - c.low * (good reads).length) * 100 := by
+    have e1 : (x * (good reads).length - c.low * (good reads).length) * 100 ≤ (total (good reads) - c.low * (good reads).length) * 100 := by omega
+    have e2 : (x * ((good reads).length : Int) - c.low * (good reads).length) * 100 = ((x - c.low) * 100) * (good reads).length := by
+      rw [Int.sub_mul, Int.sub_mul, Int.sub_mul, Int.mul_right_comm x, Int.mul_right_comm c.low]
+    have e3 : (p * (c.high - c.low)) * ((good reads).length : Int) ≤ ((x - c.low) * 100) * (good reads).length :=
+      Int.mul_le_mul_of_nonneg_right hx (by omega)
+    have e4 : (p * (c.high - c.low)) * ((good reads).length : Int) = p * ((good reads).length * (c.high - c.low)) := by
+      rw [Int.mul_assoc, Int.mul_comm (c.high - c.low)]
+    omega
+  unfold below value mean
+  simp only [hne, if_false]
+  split
+  · rename_i h2
+    simp only
+    intro h3
+    -- num < 0 although p·den ≤ num: then p·den < 0, and 0 < p·1 gives p > 0 with den > 0: contradiction
+    have h4 : p * (((good reads).length : Int) * (c.high - c.low)) < 0 := by omega
+    have h5 : 0 < p := by omega
+    have := Int.mul_pos h5 hd
+    omega
+  · split
+    · simp only; omega
+    · simp only; omega
+
+/-- with the shipped calibration: every successful reading at or above 716 counts (40 % of the span) reads at or above the
+    low threshold of 40 %, however many attempts fail in between -/
+example : ¬ below (value ⟨83, 1665⟩ [some 716, none, some 900, none, none, some 4095, some 716, none, some 800, some 716]) 40 := by decide
+
+/-- a steady raw count x (every successful attempt reads x, at least one succeeds) gives exactly the mapping of x, clamped:
+    which attempts fail does not matter -/
+theorem steady_reading (reads : List (Option Int)) (x : Int) (hall : ∀ r ∈ good reads, r = x) (hne : good reads ≠ []) :
+    mean reads = (x * ((good reads).length : Int), ((good reads).length : Int)) := by
+  have h1 : total (good reads) = x * (good reads).length := by
+    have a := total_ge (good reads) x (fun r hr => by have := hall r hr; omega)
+    have b : ∀ l : List Int, (∀ r ∈ l, r = x) → total l ≤ x * l.length := by
+      intro l hl
+      induction l with
+      | nil => simp [total]
+      | cons a as ih =>
+          have h1 := ih (fun r hr => hl r (by simp [hr]))
+          have h2 := hl a (by simp)
+          simp only [total, List.length_cons]
+          push_cast
+          rw [Int.mul_add]; simp; omega
+    have := b (good reads) hall
+    omega
+  unfold mean
+  simp only [hne, if_false, h1]
 
 end Poupool.SensorProps
